@@ -21,7 +21,7 @@ import oracle as O
 import ex
 
 LEVEL = "other"
-TECHNIQUE = ("ABSINT interval analysis with a magnitude contract at every montgomery_reduce call + EXPCHAIN monomial domain over the inversion chain + "
+TECHNIQUE = ("MONT (Montgomery radix as a symbol), LIMBPOLY (exact products), BITS (byte <-> limb codecs) abstract domains on the MIR interpreter; ABSINT interval analysis with a magnitude contract at every montgomery_reduce call + EXPCHAIN monomial domain over the inversion chain + "
              "constructor / pack() inventory and decoder flag rules over resolved MIR (PATH); serial u64 and u32 scalar backends")
 
 L = O.L
@@ -196,6 +196,12 @@ def mont(F, R, I):
         (R.viol if bad else R.ok)("C02.mont", I("Scalar::batch_invert"), bad[0] if bad else "slices of 0..4 non-zero scalars: every entry becomes its inverse, the return value is the inverse of the product",
                                   *((F.loc(f),) if bad else ()))
     R.floor("C02.mont", I("scalar operations decided in the Montgomery-radix domain"), n, 11)
+    import kernel_rules as KR
+    nk = 0
+    for inst, f_, ok, msg in KR.scalar_products(F):
+        nk += 1 if f_ else 0
+        (R.ok if ok else R.viol)("C02.kernel", I(inst), msg, *(() if ok else (F.loc(f_) if f_ else "",)))
+    R.floor("C02.kernel", I("scalar product kernels decided exact"), nk, 2)
     # byte <-> limb codecs in the bit-provenance domain
     import codec_rules as CR
     nc = 0
